@@ -584,10 +584,14 @@ struct Emitter {
 }
 
 impl Emitter {
-    fn case(&mut self, case: &str) {
+    /// claims the next case index; `true` if it belongs to this shard
+    fn mine(&mut self) -> bool {
         let mine = self.index % self.shard.1 == self.shard.0;
         self.index += 1;
-        if mine {
+        mine
+    }
+    fn case(&mut self, case: &str) {
+        if self.mine() {
             let (obs, oracle) = run_case(case);
             emit(case, &obs, &oracle);
         }
@@ -606,8 +610,12 @@ fn p_case(mode: &str, specs: &str, args: &[&str]) -> String {
 fn enumerate(e: &mut Emitter, mode: &str, specs: &str, maxlen: usize) {
     let mut idx: Vec<usize> = vec![];
     loop {
-        let args: Vec<&str> = idx.iter().map(|&i| TOKENS[i]).collect();
-        e.case(&p_case(mode, specs, &args));
+        if e.mine() {
+            let args: Vec<&str> = idx.iter().map(|&i| TOKENS[i]).collect();
+            let case = p_case(mode, specs, &args);
+            let (obs, oracle) = run_case(&case);
+            emit(&case, &obs, &oracle);
+        }
         // next vector in length-then-lexicographic order
         let mut k = idx.len();
         loop {
@@ -664,6 +672,9 @@ fn table_tokens(specs: &[SpecD], r: &mut Rng) -> Vec<String> {
             t.push(format!("--{l}="));
             let n = l.chars().count();
             for _ in 0..2 {
+                if n == 0 {
+                    break;
+                }
                 let k = 1 + r.below(n);
                 let p: String = l.chars().take(k).collect();
                 t.push(format!("--{p}"));
@@ -1045,14 +1056,17 @@ fn main() {
 
     // (i) exhaustive: small tables x all vectors over the token set
     let small = small_tables(thorough);
-    let maxlen = if thorough { 5 } else { 4 };
+    let has_a = |t: &Vec<SpecD>| t.iter().any(|s| s.short == Some('a'));
     for t in &small {
+        // thorough: length 5 for the tables with `a`, length 4 for those without
+        let maxlen = if thorough && has_a(t) { 5 } else { 4 };
         enumerate(&mut e, "111", &show_specs(t), maxlen);
     }
     // portable mode and the three single-extension modes on shorter vectors
     for t in &small {
         for m in ["000", "100", "010", "001"] {
-            enumerate(&mut e, m, &show_specs(t), maxlen - 1 - (!thorough) as usize);
+            let maxlen = if !thorough { 2 } else if m == "000" && has_a(t) { 4 } else { 3 };
+            enumerate(&mut e, m, &show_specs(t), maxlen);
         }
     }
     // real tables and odd tables, random vectors
